@@ -1069,6 +1069,25 @@ func (s *ObjectStorage) buildPackfileIters(
 			s.muI.RLock()
 			idx := s.index[h]
 			s.muI.RUnlock()
+			if idx == nil {
+				// The pack was listed from disk but is not in the loaded
+				// index: another process (or another Storage) added it
+				// after the index was built. Pick it up rather than fail
+				// the whole iteration with "index is not set".
+				if err := s.Reindex(); err != nil {
+					_ = pack.Close()
+					return nil, err
+				}
+				simhook.BeforeRLock(&s.muI)
+				s.muI.RLock()
+				idx = s.index[h]
+				s.muI.RUnlock()
+				if idx == nil {
+					// gone again (repacked away in the meantime)
+					_ = pack.Close()
+					return storer.NewEncodedObjectSliceIter(nil), nil
+				}
+			}
 			return newPackfileIter(
 				s.dir.Fs(), pack, t, seen, idx,
 				s.objectCache, false, h.Size(),
